@@ -6,6 +6,7 @@ import (
 	"go/constant"
 	"go/token"
 	"go/types"
+	"os"
 	"regexp/syntax"
 	"strings"
 
@@ -272,16 +273,55 @@ func parserConsumers(c *Ctx) (may map[*types.Func]bool, prim map[*types.Func]boo
 	return
 }
 
+// loops whose progress rests on a "returns nil when nothing was consumed" convention the must-consume analysis cannot see
+var c13R2mReviewed = map[string]string{
+	"frontend/parser.(*Parser).parseBlock":  "parseStmt returns nil when it could not start a statement and the loop then advances itself; a non-nil statement has consumed at least its first token (checked by hand for every branch of parseStmt; `fn main() { <tok> }` terminates for every token kind)",
+	"frontend/parser.(*Parser).parseModule": "parseTopLevel's default branch reports and advances; every declaration parser consumes its leading keyword (`<tok>` at top level terminates for every token kind)",
+}
+
 func c13R2(c *Ctx, r *Report) {
 	const rule = "C13.R2"
-	r.Describe(rule, "parser loops: every path from a loop head back to the head passes a call that may consume a token")
+	r.Describe(rule, "parser loops: every path from a loop head back to the head passes a call that may consume a token, and — except in two reviewed statement-level loops — a call that always consumes one (must-consume functions computed as a fixpoint over the parser's call graph; expect(kind) counts unless expectError returns without consuming for that kind)")
 	may, prim := parserConsumers(c)
 	if !r.Anchor(rule, len(prim) >= 2, "parser primitives that move Parser.current (advance, advanceRaw)") {
 		return
 	}
-	semi, _ := c.lookupObj(pkgTokens, "SEMICOLON_TOKEN").(*types.Const)
 	expect := c.LookupFn(pkgParserRel, "(*Parser).expect")
 	expectErr := c.LookupFn(pkgParserRel, "(*Parser).expectError")
+	// token kinds for which expectError reports and returns *without* consuming: read off its body — every
+	// `if kind == tokens.X { … return … }` branch that contains no consuming call
+	nonConsuming := map[*types.Const]bool{}
+	if expectErr != nil && expectErr.Decl.Body != nil {
+		einfo := expectErr.Info()
+		kindP := expectErr.Param(0)
+		for _, st := range expectErr.Decl.Body.List {
+			ifs, ok := st.(*ast.IfStmt)
+			if !ok {
+				continue
+			}
+			consumes := nodeCallsPred(ifs.Body, func(cl *ast.CallExpr) bool { f := callee(einfo, cl); return f != nil && may[f] }) != nil
+			if consumes {
+				continue
+			}
+			for _, d := range disjuncts(ifs.Cond) {
+				if b, ok := isBinOp(d, token.EQL); ok && kindP != nil && usesVar(einfo, b.X, kindP) {
+					if k := constObj(einfo, b.Y); k != nil {
+						nonConsuming[k] = true
+					}
+				}
+			}
+		}
+	}
+	r.Note("expectError returns without consuming for %d token kind(s)", len(nonConsuming))
+	mustSet := parserMustConsumers(c, may, prim, nonConsuming)
+	r.Note("must-consume functions: %d of %d may-consume", len(mustSet), len(may))
+	if os.Getenv("FERCHECK_DEBUG_MUST") != "" {
+		for f := range may {
+			if !mustSet[f] {
+				r.Note("may-only: %s", f.Name())
+			}
+		}
+	}
 	nloops := 0
 	for _, fn := range c.AllFns(pkgParserRel) {
 		info := fn.Info()
@@ -291,8 +331,10 @@ func c13R2(c *Ctx, r *Report) {
 				return false
 			}
 			// expect(SEMICOLON) reports and returns without consuming when the semicolon is missing
-			if (expect != nil && f == expect.Obj || expectErr != nil && f == expectErr.Obj) && len(call.Args) >= 1 && semi != nil && constObj(info, call.Args[0]) == semi {
-				return false
+			if (expect != nil && f == expect.Obj || expectErr != nil && f == expectErr.Obj) && len(call.Args) >= 1 {
+				if k := constObj(info, call.Args[0]); k == nil || nonConsuming[k] {
+					return false // a non-constant kind is assumed to be one of the non-consuming ones
+				}
 			}
 			return true
 		}
@@ -329,6 +371,25 @@ func c13R2(c *Ctx, r *Report) {
 				Kill:     func(nd ast.Node) bool { return nd == ast.Node(marker) && nodeCallsPred(nd, isConsume) == nil },
 				Gate:     func(nd ast.Node) bool { return nodeCallsPred(nd, isConsume) != nil },
 			})
+			if mustSet != nil {
+				isMust := func(call *ast.CallExpr) bool {
+					f := callee(info, call)
+					return f != nil && mustSet[f] && isConsume(call)
+				}
+				mh := mustFlow(g, FlowSpec{
+					InitTrue: true,
+					Target:   func(nd ast.Node) bool { return nd == ast.Node(marker) },
+					Kill:     func(nd ast.Node) bool { return nd == ast.Node(marker) && nodeCallsPred(nd, isMust) == nil },
+					Gate:     func(nd ast.Node) bool { return nodeCallsPred(nd, isMust) != nil },
+				})
+				mkey := fmt.Sprintf("loop #%d: every iteration passes a call that always consumes", nloops)
+				if reason, ok := c13R2mReviewed[fn.Name()]; ok && len(mh) > 0 {
+					r.OK(rule, fn.Name(), mkey+" (reviewed: "+reason+")", c.pos(loop.Pos()), "reviewed exception")
+				} else {
+					r.Check(len(mh) == 0, rule, fn.Name(), mkey, c.pos(loop.Pos()),
+						"some path through the loop body reaches the loop head again through calls that only *may* consume a token (element parsers that return without advancing on a token they cannot start with, expect() of a kind that is reported without being consumed): on such input the parser state is unchanged and the loop never terminates")
+				}
+			}
 			construct := fmt.Sprintf("loop #%d `for %s`", nloops, exprStr(loopCondOrTrue(loop)))
 			if len(construct) > 100 {
 				construct = construct[:100]
